@@ -33,6 +33,16 @@ theorem source_shape :
     Gen.send_retryCond = "err != nil && errors.Is(err, llrp.ErrClientClosed)" ∧ Gen.send_noClientRetry = "true" :=
   ⟨rfl, rfl, rfl, rfl, rfl, rfl, rfl, rfl, rfl, rfl, rfl⟩
 
+/-- what one attempt reports (the model's `Ev`: a failed dial, a failed or broken connection = a failed attempt; a
+connection closed locally = a reset): the attempt function f₂ returns `true, err` when the dial fails and otherwise
+`true, clientErr`, where `clientErr` is what `c.Connect(conn)` returned — reset to nil in exactly one case, when it
+is `ErrClientClosed`. Every other way a connection ends (however long it lasted) is a failed attempt. -/
+theorem attempt_rule :
+    Gen.sup_attemptRetry = "true" ∧
+    Gen.sup_attemptErr = ["err != nil => return true, err", " => c.Connect(conn)",
+      "errors.Is(clientErr, llrp.ErrClientClosed) => nil", " => return true, clientErr"] :=
+  ⟨rfl, rfl⟩
+
 /-- f₁ recognises the cancelled context in the `*FError` of the inner retry (`errors.Is`, not `==`) -/
 theorem stop_recognised : cfgSrc.stopByIs = true := rfl
 
